@@ -4,8 +4,14 @@
   the function the translator produced from the CURRENT source is, for all inputs, the hand-written model function that the property
   theorems are about. A change to one of these Python functions changes the generated definition and breaks a theorem here
   statically, without needing a test input. (Split per source area so that a change in one area does not alarm unrelated properties.)
+  The proofs close with `tie_close` (Props/TieRobC.lean): reflexivity first, then normalisation of both sides and a case analysis, so
+  that a behaviour-preserving reshaping of the Python (renamed / inlined locals, early `return` vs conditional expression, negated
+  test with swapped branches, `for _ in range(k)` vs the unrolled calls, …) keeps the theorem, while a real change fails in seconds.
 -/
 import PyEcc.Gen.ExtraCodec
+import PyEcc.Props.TieRobC
+
+set_option linter.unusedSimpArgs false
 
 namespace PyEcc.Tie
 open PyEcc
@@ -34,48 +40,59 @@ theorem is_point_at_infinity_eq (z1 : Nat) (z2 : Option Nat) :
 /-- `compress_G1(pt)` as translated from the source is the model's `compressG1`. -/
 theorem compress_G1_eq (pt : G1Pt) : Gen.ExtraCodec.compress_G1 pt = compressG1 pt := by
   unfold Gen.ExtraCodec.compress_G1 compressG1
-  with_reducible rfl
+  tie_close [ne_eq, ite_not]
 
 /-- `decompress_G1(z)` as translated from the source (flag checks in the same order, the infinity branch,
     the range check, `pow(·, (q+1)//4, q)`, the residue check, the sign choice) is the model's `decompressG1`. -/
 theorem decompress_G1_eq (z : Nat) : Gen.ExtraCodec.decompress_G1 z = decompressG1 z := by
   unfold Gen.ExtraCodec.decompress_G1 decompressG1
-  with_reducible rfl
+  -- robust against: hoisted common subexpressions, `not a == b` for `a != b`, the sign choice written with the
+  -- opposite test and swapped branches or inlined into the result tuple
+  tie_close [ne_eq, ite_not]
 
 /-- `compress_G2(pt)` as translated from the source is the model's `compressG2`.  (`int(z1)`, `int(z2)` are
     emitted as `.toNat`: the translator spec asserts that these two locals are non-negative.) -/
 theorem compress_G2_eq (pt : G2Pt) : Gen.ExtraCodec.compress_G2 pt = compressG2 pt := by
   unfold Gen.ExtraCodec.compress_G2 compressG2
-  with_reducible rfl
+  tie_close [ne_eq, ite_not]
 
 /-- `decompress_G2((z1, z2))` as translated from the source (flag checks, infinity branch, both range checks,
     the call of the hand-modelled `modular_squareroot_in_FQ2` with its `is None` test, the sign choice, the final
     on-curve check) is the model's `decompressG2`. -/
 theorem decompress_G2_eq (z1 z2 : Nat) : Gen.ExtraCodec.decompress_G2 (z1, z2) = decompressG2 z1 z2 := by
   unfold Gen.ExtraCodec.decompress_G2 decompressG2
-  dsimp only
+  -- rewrite the `Except` operations away: both sides become nested `if`s around one `match` on the optional square root
+  simp only [throw_bind_except, pure_bind]
   -- the two `match`es on the optional square root are different auxiliary matchers: split on the value
-  generalize modularSquarerootInFq2 _ = o
-  cases o <;> with_reducible rfl
+  generalize ho : modularSquarerootInFq2 _ = o
+  cases o with
+  | none => (try simp only) <;> tie_close [ne_eq, ite_not]
+  | some y =>
+    -- robust against reshapings of the sign test that are equivalent only because the coefficients of the square root are
+    -- reduced residues (e.g. `sign_coeff = y_im if y_im > 0 else y_re`): the case analysis has `0 ≤ y_re`, `0 ≤ y_im`
+    have h0 := modularSquarerootInFq2_coeff_nonneg ho 0
+    have h1 := modularSquarerootInFq2_coeff_nonneg ho 1
+    clear ho
+    (try simp only) <;> tie_close [ne_eq, ite_not]
 
 /-- `G2_to_signature(pt)` = `i2osp(z1, 48) + i2osp(z2, 48)` for `(z1, z2) = compress_G2(pt)`, as in the model. -/
 theorem G2_to_signature_eq (pt : G2Pt) : Gen.ExtraCodec.G2_to_signature pt = g2ToSignature pt := by
   unfold Gen.ExtraCodec.G2_to_signature g2ToSignature
-  with_reducible rfl
+  tie_close [ne_eq, ite_not]
 
 /-- `signature_to_G2(signature)` = `decompress_G2((os2ip(signature[:48]), os2ip(signature[48:])))`, as in the model. -/
 theorem signature_to_G2_eq (sig : Bytes) : Gen.ExtraCodec.signature_to_G2 sig = signatureToG2 sig := by
   unfold Gen.ExtraCodec.signature_to_G2 signatureToG2
-  with_reducible rfl
+  tie_close [ne_eq, ite_not]
 
 /-- `G1_to_pubkey(pt)` = `i2osp(compress_G1(pt), 48)`, as in the model. -/
 theorem G1_to_pubkey_eq (pt : G1Pt) : Gen.ExtraCodec.G1_to_pubkey pt = g1ToPubkey pt := by
   unfold Gen.ExtraCodec.G1_to_pubkey g1ToPubkey
-  with_reducible rfl
+  tie_close [ne_eq, ite_not]
 
 /-- `pubkey_to_G1(pubkey)` = `decompress_G1(os2ip(pubkey))`, as in the model. -/
 theorem pubkey_to_G1_eq (pk : Bytes) : Gen.ExtraCodec.pubkey_to_G1 pk = pubkeyToG1 pk := by
   unfold Gen.ExtraCodec.pubkey_to_G1 pubkeyToG1
-  with_reducible rfl
+  tie_close [ne_eq, ite_not]
 
 end PyEcc.Tie
